@@ -204,24 +204,80 @@ def apply_path(ctx, repo, qual, must_clear):
                f"{fi.qual}: `{hp}.changes` is not cleared on every normal path after applying: the same changes are applied again with the next message", fi.loc)
 
 
-def consume_pairing(ctx, repo, rule):
-    """consume(): every popped datagram gets its own async_handle immediately followed by its own
-    async_handled (the callback that reports it), and async_handled invokes the callback once.
-    Shared with C15 (each discovery reply is reported individually)."""
-    c = repo.method("GeckoUdpProtocolHandler", "consume")
-    gc = cfg_of(c)
-    ah = calls_named(gc, "async_handle")
-    ad = calls_named(gc, "async_handled")
-    ok, why = False, f"found {len(ah)} async_handle and {len(ad)} async_handled call sites"
-    if len(ah) == 1 and len(ad) == 1:
-        from ..pathrules import followed_by
-        ok, why = followed_by(gc, ah[0][0], ad[0][0])
-    ctx.ob(rule, "consume::handle-then-handled-once", ok,
-           f"consume does not call async_handle then async_handled exactly once per datagram ({why}): the handler's decoded fields are single-slot state, so a datagram handled without its own handled-callback is overwritten by the next one before anybody sees it", c.loc)
-    ahd = repo.method("GeckoUdpProtocolHandler", "async_handled")
-    ga = cfg_of(ahd)
-    cb = [n for n in ga.stmt_nodes() if n.suspends and any(isinstance(x, ast.Call) and isinstance(x.func, ast.Attribute) and "on_handled" in x.func.attr and [ast.unparse(a) for a in x.args] == ["self", "sender"] for x in n.walk())]
-    ctx.ob(rule, "async_handled::calls-callback-once", len(cb) == 1 and ga.loop_of(cb[0]) is None, "async_handled does not invoke the callback exactly once", ahd.loc)
+def consume_pairing(ctx, repo, rule, rule_exit=None):
+    """consume() by interpretation: a handler built by the base class's constructor (its can_handle / async_handle are
+    stand-ins that record, its async_on_handled callback records) consumes from a real peekable queue on a model
+    connection; asyncio.sleep is the model's clock.  Three datagrams queued at once (two spas answering within one poll):
+    each is taken once, handled, and reported through the callback with its own sender before the next is handled.
+    With rule_exit: the loop yields on every pass while the queue is empty, goes on for as long as the handler is not
+    flagged for removal, and ends once it is.  Shared with C15 (each discovery reply is reported individually) and C07."""
+    from ..absint import ClassRef, Interp, Native, Obj, PyRaise, Undecided
+    BASE = "GeckoUdpProtocolHandler"
+    QUEUE = "AsyncPeekableQueue"
+    cons = repo.method(BASE, "consume")
+
+    class _Stop(Exception):
+        pass
+
+    def run(datagrams, flag_after=None, max_sleeps=12, accept=lambda d: True):
+        it = Interp(repo, max_depth=12)
+        log = []
+        try:
+            q = it.apply(ClassRef(repo.cls(QUEUE)), [], {})
+            fifo = list(datagrams)
+            q.attrs["_queue"] = fifo
+            q.attrs["qsize"] = Native(lambda a, k: len(fifo), "qsize")
+            q.attrs["empty"] = Native(lambda a, k: not fifo, "empty")
+            q.attrs["get_nowait"] = Native(lambda a, k: fifo.pop(0), "get_nowait")
+            h = it.apply(ClassRef(repo.cls(BASE)), [], {"async_on_handled": Native(lambda a, k: log.append(("reported", a[1] if len(a) > 1 else None, log[-1][1] if log and log[-1][0] == "handle" else None)), "callback")})
+        except (PyRaise, Undecided) as e:
+            raise AnalysisError(f"{BASE}(async_on_handled=...) / {QUEUE}() cannot be constructed by interpretation: {e}")
+        h.attrs["can_handle"] = Native(lambda a, k: accept(a[0]), "can_handle")
+        h.attrs["async_handle"] = Native(lambda a, k: log.append(("handle", a[0], a[1])), "async_handle")
+        proto = Obj(None, {"queue": q, "isopen": True}, name="protocol")
+        sleeps = [0]
+
+        def hook(it_, node, callee, args, kwargs):
+            if getattr(callee, "name", "") == "asyncio.sleep" or (isinstance(getattr(node, "func", None), ast.Attribute) and node.func.attr in ("sleep", "config_sleep")):
+                sleeps[0] += 1
+                if flag_after is not None and sleeps[0] == flag_after:
+                    dfh = repo.method(BASE, "_default_retry_failed_handler")
+                    it_.call(dfh, None if dfh.is_static else h, [h, None])   # the library's own way of flagging a handler for removal
+                if sleeps[0] >= max_sleeps:
+                    raise _Stop()
+                return None
+            return NotImplemented
+        it.call_hook = hook
+        try:
+            it.steps = 0
+            it.call(cons, h, [proto])
+            return log, sleeps[0], "returned", list(fifo)
+        except _Stop:
+            return log, sleeps[0], "still running", list(fifo)
+        except PyRaise as e:
+            return log, sleeps[0], f"raises {e.what}", list(fifo)
+        except Undecided as e:
+            raise AnalysisError(f"{cons.qual}: cannot interpret: {e}")
+    A, B, C = (b"HELLO from A", ("10.0.0.5", 10022)), (b"HELLO from B", ("10.0.0.6", 10022)), (b"HELLO from C", ("10.0.0.7", 10022))
+    log, n_sleeps, how, left = run([A, B, C])
+    want = []
+    for d, snd in (A, B, C):
+        want += [("handle", d, snd), ("reported", snd, d)]
+    ctx.ob(rule, "consume::handle-then-handled-once", log == want and not left,
+           f"consume with three datagrams queued at once: {[(x[0], x[1] if x[0] == 'reported' else x[1][-1:]) for x in log]} ({how} after {n_sleeps} polls, {len(left)} left in the queue); expected each datagram "
+           f"handled and then reported through the handled-callback with its own sender before the next one is handled - the handler's decoded fields are single-slot state, so a datagram "
+           f"handled without its own callback is overwritten by the next one before anybody sees it", cons.loc)
+    ctx.ob(rule, "async_handled::calls-callback-once", sum(1 for x in log if x[0] == "reported") == 3, f"the handled-callback was invoked {sum(1 for x in log if x[0] == 'reported')} times for 3 datagrams", cons.loc)
+    # a datagram the handler does not accept is left alone
+    log2, _n2, _how2, left2 = run([A], accept=lambda d: False, max_sleeps=4)
+    ctx.ob(rule, "consume::leaves-foreign-datagrams", log2 == [] and left2 == [A], f"consume with a datagram its handler does not accept: calls {log2}, queue {left2} - it must neither handle nor remove it", cons.loc)
+    if rule_exit:
+        _l, n3, how3, _x = run([], flag_after=None, max_sleeps=15)
+        ctx.ob(rule_exit, f"{cons.qual}::exit-only-when-removed", how3 == "still running" and n3 == 15,
+               f"{cons.qual} on an empty queue with a handler that is never flagged for removal: {how3} after {n3} polls - it must keep polling (and yield on every pass)", cons.loc)
+        _l, n4, how4, _x = run([], flag_after=3, max_sleeps=15)
+        ctx.ob(rule_exit, f"{cons.qual}::ends-once-flagged", how4 == "returned" and 3 <= n4 <= 4,
+               f"{cons.qual} with the handler flagged for removal during the 3rd poll: {how4} after {n4} polls - expected it to end within one more pass", cons.loc)
 
 
 def message_sequence_model(ctx, repo, rule):
